@@ -181,9 +181,18 @@ def read_file(path):
                     'data': '%s/%s/%s/%r/%r' % (_digest_pad(c.inputs), _digest_pad(c.outputs), _digest_pad(c.residuals),
                                                 c.abs_err, c.rel_err),
                     'derivs': _digest_derivs(c.derivatives), 'success': c.success})
-    # metadata the reader promises
-    cr.list_sources(out_stream=None)
+    # every per-source listing must show exactly the cases of the global listing
+    per_source = []
+    for src in cr.list_sources(out_stream=None):
+        per_source += list(cr.list_cases(src, recurse=False, out_stream=None))
+    if sorted(per_source) != sorted(names):
+        raise InconsistentListing('list_cases() shows %d cases, the per-source listings show %d: %s'
+                                  % (len(names), len(per_source), sorted(set(per_source) ^ set(names))[:3]))
     return out
+
+
+class InconsistentListing(Exception):
+    pass
 
 
 # ----------------------------------------------------------------------------------------------
@@ -204,6 +213,7 @@ def judge_point(spec, ref, pt, acc, tmp, files):
     case = {'spec': spec, 'point': pt}
     res = RC.fork_run(spec, wd, kill=pt, timeout=120, db_files=files)
     mech = point_key(pt)
+    acc.count('time_ms:child:' + pt['mode'], int(res['elapsed'] * 1000))
     try:
         if res.get('timeout'):
             acc.skip('child-watchdog')
@@ -313,9 +323,46 @@ def _recorder_started(path):
 # ----------------------------------------------------------------------------------------------
 # enumeration
 # ----------------------------------------------------------------------------------------------
+_WARM = [False]
+
+
+def scratch():
+    """Scratch directory for the crash experiments: tmpfs when available (fdatasync is then free; for a
+    SIGKILL experiment only the page cache matters, so this does not change what survives)."""
+    import tempfile
+    base = '/dev/shm' if os.access('/dev/shm', os.W_OK) else os.getcwd()
+    return tempfile.mkdtemp(prefix='omv-c18-', dir=base)
+
+
+def warm_up(spec, tmp):
+    """Run the scenario once in-process (lazy imports, caches) and freeze the heap, so that forked children do
+    not pay copy-on-write for every garbage collection."""
+    import gc
+    from omv.gen import recmodels as G
+    if _WARM[0]:
+        return
+    wd = os.path.join(tmp, 'warm')
+    os.makedirs(wd, exist_ok=True)
+    old = os.getcwd()
+    os.chdir(wd)
+    try:
+        b = G.build(spec)
+        G.run_sequence(b)
+        b['prob'].cleanup()
+        for f in spec['recorders']['files']:
+            read_file(f['file'])
+    finally:
+        os.chdir(old)
+        shutil.rmtree(wd, ignore_errors=True)
+    gc.collect()
+    gc.freeze()
+    _WARM[0] = True
+
+
 def reference(spec, tmp, acc):
     from omv.kit import rec_child as RC
     files = [f['file'] for f in spec['recorders']['files']]
+    warm_up(spec, tmp)
     wd = os.path.join(tmp, 'ref')
     shutil.rmtree(wd, ignore_errors=True)
     res = RC.fork_run(spec, wd, kill={'mode': 'ref', 'count_calls': True}, timeout=300)
@@ -378,24 +425,28 @@ def shards(tier, seed):
 
 
 def run_shard(shard, acc):
-    tmp = os.path.join(os.getcwd(), 'c18')
-    os.makedirs(tmp, exist_ok=True)
-    spec = scenario(shard['scenario'], shard['seed'])
-    ref, counts, sc, files = reference(spec, tmp, acc)
-    pts = enumerate_points(spec, counts, sc, shard['tier'], shard['seed'])
-    acc.count('obs:points_enumerated_in_scenario', len(pts) if shard['part'] == 0 else 0)
-    for i, pt in enumerate(pts):
-        if i % shard['nparts'] != shard['part']:
-            continue
-        judge_point(spec, ref, pt, acc, tmp, files)
+    tmp = scratch()
+    try:
+        spec = scenario(shard['scenario'], shard['seed'])
+        ref, counts, sc, files = reference(spec, tmp, acc)
+        pts = enumerate_points(spec, counts, sc, shard['tier'], shard['seed'])
+        acc.count('obs:points_enumerated_in_scenario', len(pts) if shard['part'] == 0 else 0)
+        for i, pt in enumerate(pts):
+            if i % shard['nparts'] != shard['part']:
+                continue
+            judge_point(spec, ref, pt, acc, tmp, files)
+    finally:
+        shutil.rmtree(tmp, ignore_errors=True)
 
 
 def run_case(case, acc):
-    tmp = os.path.join(os.getcwd(), 'c18')
-    os.makedirs(tmp, exist_ok=True)
-    spec = case['spec']
-    ref, counts, sc, files = reference(spec, tmp, acc)
-    judge_point(spec, ref, case['point'], acc, tmp, files)
+    tmp = scratch()
+    try:
+        spec = case['spec']
+        ref, counts, sc, files = reference(spec, tmp, acc)
+        judge_point(spec, ref, case['point'], acc, tmp, files)
+    finally:
+        shutil.rmtree(tmp, ignore_errors=True)
 
 
 def coverage_extra(tier, agg):
